@@ -7,6 +7,7 @@ the tie to the code.
 -/
 import Bourse.Model.Momentum
 import Bourse.Lemmas.MomentumF64
+import Bourse.Lemmas.FloatAgentsValid
 import Mathlib.Tactic.Ring
 import Mathlib.Tactic.Linarith
 import Mathlib.Algebra.Order.Field.Rat
@@ -162,5 +163,23 @@ def exB := FAgents.signalsFrom exC exTh FAgents.MomState.init [100, 199/2, 97, 1
 example : exA.map (·.1) = exB.map (fun r => F64.neg r.1) ∧ exA.map (·.2) = exB.map (·.2) ∧
     (exA.map (·.1))[2]? = some (.fin (1925288840700887 / 2251799813685248)) := by
   decide +kernel
+
+/-- **Direction follows the sign of `M`, and `M = 0` does nothing**, for the whole update of the modelled
+agent: whatever a momentum agent's update submits, buys occur only if `0 < M` and sells only if `M < 0`
+(`Reach` with these two flags), and the agent's next state carries exactly the signal computed from
+the observed mid-prices. -/
+theorem update_direction_follows_signal (c : FAgents.MomP) (smp : FAgents.Sampler) (th : F → F) (s : FAgents.MomState)
+    (e : MEnv) (g : Xoro) (b : Book) (hb : e.market.books[c.asset]? = some b) (hq : FAgents.QuoteOk b.mid2 c.tick smp)
+    {s' e' g'} (h : FAgents.momUpdate c smp th s e g = some (s', e', g')) :
+    FAgents.Reach c.asset c.tick c.vol c.traders ((b.mid2 : Rat) / 2) s.orders
+      (F64.lt (.fin 0) (FAgents.signal c th s (.fin ((b.mid2 : Rat) / 2))).1)
+      (F64.lt (FAgents.signal c th s (.fin ((b.mid2 : Rat) / 2))).1 (.fin 0)) e e' ∧
+    s'.m = (FAgents.signal c th s (.fin ((b.mid2 : Rat) / 2))).1 ∧ s'.last = some (.fin ((b.mid2 : Rat) / 2)) :=
+  FAgents.momUpdate_reach c smp th s e g b hb hq h
+
+/-- With a zero signal the update leaves every book exactly as it was. -/
+theorem zero_signal_does_nothing {a tick vol trs mid own e0 e}
+    (h : FAgents.Reach a tick vol trs mid own false false e0 e) : e.market = e0.market :=
+  FAgents.reach_no_direction_market h
 
 end Bourse.Props.C17
